@@ -596,6 +596,70 @@ def _inline_record_locals(decls):
         if not cbody.kids and not owns_table:
             continue
         prefix = d.name + '::'
+        sub = {p_.id: a for p_, a in zip(params_of(ct), args)}
+        # a vector member that is the caller's vector moved / copied in is that vector (when the caller does not use its
+        # own afterwards and the class never writes to the member)
+        alias = {}
+
+        def through(n_):
+            n_ = strip(n_)
+            while True:
+                if n_.kind == 'CallExpr' and n_.kids and strip(n_.kids[0]).ref in ('move', 'forward') and len(n_.kids) == 2:
+                    n_ = strip(n_.kids[1])
+                elif n_.kind == 'CXXConstructExpr' and len(n_.kids) == 1 and 'vector' in (n_.type or ''):
+                    n_ = strip(n_.kids[0])
+                else:
+                    return n_
+        written = set()
+        for fn_ in list(used_methods.values()) + [ct]:
+            for n_ in fn_.walk():
+                tg_ = None
+                if n_.kind in ('BinaryOperator', 'CompoundAssignOperator') and n_.op and n_.op.endswith('=') and n_.op not in ('==', '!=', '<=', '>='):
+                    tg_ = n_.kids[0]
+                elif n_.kind == 'CXXOperatorCallExpr' and n_.kids and strip(n_.kids[0]).ref in ('operator=', 'operator+=', 'operator-=') and len(n_.kids) > 1:
+                    tg_ = n_.kids[1]
+                elif n_.kind == 'CXXMemberCallExpr' and strip(n_.kids[0]).name in ('push_back', 'emplace_back', 'resize', 'clear', 'assign', 'pop_back', 'swap', 'insert', 'erase'):
+                    tg_ = strip(n_.kids[0]).kids[0] if strip(n_.kids[0]).kids else None
+                if tg_ is not None:
+                    for y in tg_.walk():
+                        if this_member(y):
+                            written.add(y.name)
+        after = False
+        later_refs = {}
+        for s2 in body.kids:
+            if s2 is st:
+                after = True
+                continue
+            if after:
+                for y in s2.walk():
+                    if y.kind == 'DeclRefExpr' and y.ref:
+                        later_refs[y.ref] = later_refs.get(y.ref, 0) + 1
+        for f in fields:
+            ini = inits.get(f.name)
+            if ini is None or not ini.kids or 'vector' not in (f.type or '') or f.name in written:
+                continue
+            e_ = through(ini.kids[0])
+            if e_.kind == 'DeclRefExpr' and e_.refid in sub:
+                a_ = through(sub[e_.refid])
+                if a_.kind == 'DeclRefExpr' and a_.refkind == 'VarDecl' and not later_refs.get(a_.ref):
+                    alias[f.name] = a_
+        # v.size() of a vector of the caller that is created with the sentence length and never resized is that length
+        sized = {}
+        for s2 in body.kids:
+            if s2.kind == 'DeclStmt':
+                for v_ in s2.kids:
+                    if v_.kind == 'VarDecl' and 'vector' in (v_.type or ''):
+                        i_ = [k for k in v_.kids if k.kind != 'Null' and not k.kind.endswith('Attr')]
+                        c_ = i_[0] if i_ else None
+                        while c_ is not None and c_.kind in ('ExprWithCleanups', 'CXXBindTemporaryExpr') and len(c_.kids) == 1:
+                            c_ = c_.kids[0]
+                        if c_ is not None and c_.kind == 'CXXConstructExpr' and len(c_.kids) >= 1 and strip(c_.kids[0]).kind == 'DeclRefExpr' \
+                                and strip(c_.kids[0]).refkind == 'ParmVarDecl' and 'unsigned' in (strip(c_.kids[0]).type or ''):
+                            sized[v_.name] = strip(c_.kids[0])
+        for n_ in ps.walk():
+            if n_.kind == 'CXXMemberCallExpr' and strip(n_.kids[0]).name in ('push_back', 'emplace_back', 'resize', 'clear', 'assign', 'pop_back', 'swap', 'insert', 'erase') \
+                    and strip(n_.kids[0]).kids and strip(strip(n_.kids[0]).kids[0]).ref in sized:
+                sized.pop(strip(strip(n_.kids[0]).kids[0]).ref, None)
 
         def rewrite(n, parent, sub):
             """clone with: parameters -> arguments, this->M -> local o::M, ids of locals prefixed"""
@@ -605,6 +669,16 @@ def _inline_record_locals(decls):
                 if a_.kind == 'CallExpr' and a_.kids and strip(a_.kids[0]).ref in ('move', 'forward') and len(a_.kids) == 2:
                     a = a_.kids[1]
                 return clone(a, parent, None)
+            if this_member(n) and n.name in alias:
+                return clone(alias[n.name], parent, None)
+            if n.kind == 'CXXMemberCallExpr' and len(n.kids) == 1 and strip(n.kids[0]).kind == 'MemberExpr' and strip(n.kids[0]).name == 'size' and strip(n.kids[0]).kids:
+                b_ = strip(strip(n.kids[0]).kids[0])
+                if b_.kind == 'DeclRefExpr' and b_.refid in sub:
+                    b_ = through(sub[b_.refid])
+                elif this_member(b_) and b_.name in alias:
+                    b_ = alias[b_.name]
+                if b_.kind == 'DeclRefExpr' and b_.ref in sized:
+                    return clone(sized[b_.ref], parent, None)
             if this_member(n):
                 f = [f_ for f_ in fields if f_.name == n.name][0]
                 return _blank('DeclRefExpr', ref=prefix + n.name, refid=prefix + n.name, refkind='VarDecl', type=f.type, dtype=f.dtype,
@@ -625,9 +699,10 @@ def _inline_record_locals(decls):
             c.kids = [rewrite(k, c, sub) for k in n.kids]
             return c
         local_ids = {str(n.id) for fn_ in list(used_methods.values()) + [ct] for n in fn_.walk() if n.kind == 'VarDecl' and n.id}
-        sub = {p_.id: a for p_, a in zip(params_of(ct), args)}
         new_stmts = []
         for f in fields:
+            if f.name in alias:
+                continue
             v = _blank('VarDecl', name=prefix + f.name, id=prefix + f.name, line=d.line, init_style='call')
             t_ = (f.type or '').replace('const ', '').strip()
             v.type = ('parsing::' + t_) if t_ in decls and t_ in _CORE_RECORDS else f.type
@@ -656,7 +731,10 @@ def _inline_record_locals(decls):
         i = body.kids.index(st)
         body.kids[i:i + 1] = new_stmts
         for kind_, node, mth in sites:
-            if kind_ == 'field':
+            if kind_ == 'field' and node.name in alias:
+                rep_ = clone(alias[node.name], node.parent, None)
+                node.parent.kids[node.parent.kids.index(node)] = rep_
+            elif kind_ == 'field':
                 f = [f_ for f_ in fields if f_.name == node.name][0]
                 rep_ = _blank('DeclRefExpr', ref=prefix + node.name, refid=prefix + node.name, refkind='VarDecl', type=f.type, dtype=f.dtype,
                               reftype=f.type, line=node.line, parent=node.parent)
